@@ -669,6 +669,12 @@ func socksServe(c net.Conn, rec *destRec, mode string, tlsCfg *tls.Config, httpL
 		fail()
 		return
 	}
+	serveUpstream(c, mode, tlsCfg, httpL)
+}
+
+// serveUpstream plays the DNS server of the given kind on an established connection.
+func serveUpstream(c net.Conn, mode string, tlsCfg *tls.Config, httpL *chanListener) {
+	c.SetDeadline(time.Now().Add(20 * time.Second))
 	switch mode {
 	case "tcp":
 		serveFramedDNS(c)
@@ -685,6 +691,8 @@ func socksServe(c net.Conn, rec *destRec, mode string, tlsCfg *tls.Config, httpL
 		case <-httpL.done:
 			c.Close()
 		}
+	default:
+		c.Close()
 	}
 }
 
@@ -716,8 +724,9 @@ func query() []byte {
 }
 
 type netSpec struct {
-	u    uin
-	cert string // "" = none; name or IP the server certificate is issued for
+	u      uin
+	cert   string // "" = none; name or IP the server certificate is issued for
+	direct bool   // tcp based transport without the proxy: loopback TCP listeners see the connection
 }
 
 func schemeMode(s string) (mode string, socks bool, defPort int) {
@@ -753,7 +762,29 @@ func portOf(p *string) int {
 
 // runNet takes one address to the network. Returns false when a socket the
 // case needs could not be bound (the case is then skipped, not emitted).
+// An exchange that ends in a timeout with next to no connection attempts (a
+// starved machine, not a property of the code) is repeated up to two times.
 func runNet(w *hx.Writer, id string, ns netSpec) bool {
+	for attempt := 0; ; attempt++ {
+		r, ok := runNetOnce(id, ns)
+		if !ok {
+			return false
+		}
+		if r.starved && attempt < 2 {
+			continue
+		}
+		emit(w, r.kind, id, r.coq, r.desc)
+		return true
+	}
+}
+
+type netResult struct {
+	kind, coq string
+	desc      map[string]any
+	starved   bool
+}
+
+func runNetOnce(id string, ns netSpec) (netResult, bool) {
 	u := ns.u
 	mode, socks, defPort := schemeMode(u.scheme)
 	rec := newRec()
@@ -767,40 +798,43 @@ func runNet(w *hx.Writer, id string, ns netSpec) bool {
 	var wg sync.WaitGroup
 
 	san := "SanNone"
+	if ns.direct {
+		socks = false
+	}
+	var tlsCfg *tls.Config
+	var httpL *chanListener
+	if mode == "tls" || mode == "https" {
+		initCA()
+		opt.TLSConfig = &tls.Config{RootCAs: caPool}
+		cert := leaf(ns.cert)
+		if a, err := netip.ParseAddr(ns.cert); err == nil {
+			san = hx.App("SanIp", ipBytes(a))
+		} else {
+			san = hx.App("SanName", hx.Str(ns.cert))
+		}
+		tlsCfg = &tls.Config{
+			Certificates: []tls.Certificate{cert},
+			GetConfigForClient: func(h *tls.ClientHelloInfo) (*tls.Config, error) {
+				rec.addSNI(h.ServerName)
+				return nil, nil
+			},
+		}
+		if mode == "https" {
+			tlsCfg.NextProtos = []string{"h2", "http/1.1"}
+			httpL = &chanListener{ch: make(chan net.Conn), done: make(chan struct{})}
+			srv := &http.Server{Handler: dohHandler(rec), ErrorLog: log.New(io.Discard, "", 0)}
+			wg.Add(1)
+			go func() { defer wg.Done(); srv.Serve(httpL) }()
+			closers = append(closers, func() { srv.Close(); httpL.Close() })
+		}
+	}
 	if socks {
 		ln, err := net.Listen("tcp", "127.0.0.1:0")
 		if err != nil {
-			return false
+			return netResult{}, false
 		}
 		closers = append(closers, func() { ln.Close() })
 		opt.Socks5 = ln.Addr().String()
-		var tlsCfg *tls.Config
-		var httpL *chanListener
-		if mode == "tls" || mode == "https" {
-			initCA()
-			opt.TLSConfig = &tls.Config{RootCAs: caPool}
-			cert := leaf(ns.cert)
-			if a, err := netip.ParseAddr(ns.cert); err == nil {
-				san = hx.App("SanIp", ipBytes(a))
-			} else {
-				san = hx.App("SanName", hx.Str(ns.cert))
-			}
-			tlsCfg = &tls.Config{
-				Certificates: []tls.Certificate{cert},
-				GetConfigForClient: func(h *tls.ClientHelloInfo) (*tls.Config, error) {
-					rec.addSNI(h.ServerName)
-					return nil, nil
-				},
-			}
-			if mode == "https" {
-				tlsCfg.NextProtos = []string{"h2", "http/1.1"}
-				httpL = &chanListener{ch: make(chan net.Conn), done: make(chan struct{})}
-				srv := &http.Server{Handler: dohHandler(rec), ErrorLog: log.New(io.Discard, "", 0)}
-				wg.Add(1)
-				go func() { defer wg.Done(); srv.Serve(httpL) }()
-				closers = append(closers, func() { srv.Close(); httpL.Close() })
-			}
-		}
 		wg.Add(1)
 		go func() {
 			defer wg.Done()
@@ -814,7 +848,7 @@ func runNet(w *hx.Writer, id string, ns netSpec) bool {
 			}
 		}()
 	} else {
-		// loopback UDP sockets on every candidate address x candidate port
+		// loopback sockets on every candidate address x candidate port
 		eff := u.e
 		if u.dial != nil {
 			eff = *u.dial
@@ -835,12 +869,45 @@ func runNet(w *hx.Writer, id string, ns netSpec) bool {
 			}
 		}
 		for p := range ports {
+			if !ns.direct {
+				break
+			}
+			for _, ip := range loopIPs {
+				a := netip.AddrPortFrom(netip.MustParseAddr(ip), uint16(p))
+				ln, err := net.ListenTCP("tcp", net.TCPAddrFromAddrPort(a))
+				if err != nil {
+					if p == want {
+						return netResult{}, false
+					}
+					continue
+				}
+				closers = append(closers, func() { ln.Close() })
+				lit := hx.Tuple(hx.App("DIp", ipBytes(a.Addr())), hx.Ni(p))
+				wg.Add(1)
+				go func() {
+					defer wg.Done()
+					for {
+						c, err := ln.Accept()
+						if err != nil {
+							return
+						}
+						rec.add(lit)
+						wg.Add(1)
+						go func() { defer wg.Done(); serveUpstream(c, mode, tlsCfg, httpL) }()
+					}
+				}()
+			}
+		}
+		for p := range ports {
+			if ns.direct {
+				break
+			}
 			for _, ip := range loopIPs {
 				a := netip.AddrPortFrom(netip.MustParseAddr(ip), uint16(p))
 				pc, err := net.ListenUDP("udp", net.UDPAddrFromAddrPort(a))
 				if err != nil {
 					if p == want {
-						return false
+						return netResult{}, false
 					}
 					continue
 				}
@@ -898,9 +965,8 @@ func runNet(w *hx.Writer, id string, ns netSpec) bool {
 		cancel()
 		up.Close()
 	}); p != nil {
-		emit(w, "panic", id, hx.App("CPanic", hx.Str(u.addrStr()), hx.Str(u.dialStr())),
-			map[string]any{"in": u.addrStr(), "in2": u.dialStr(), "panic": fmt.Sprint(p)})
-		return true
+		return netResult{kind: "panic", coq: hx.App("CPanic", hx.Str(u.addrStr()), hx.Str(u.dialStr())),
+			desc: map[string]any{"in": u.addrStr(), "in2": u.dialStr(), "panic": fmt.Sprint(p)}}, true
 	}
 	for i := len(closers) - 1; i >= 0; i-- {
 		closers[i]()
@@ -912,10 +978,12 @@ func runNet(w *hx.Writer, id string, ns netSpec) bool {
 	if created {
 		obs = hx.Some(hx.Tuple(hx.List(rec.dests()), hx.Str(rec.sniObserved()), hx.Str(rec.hostObserved()), hx.Bool(exchOK)))
 	}
-	emit(w, "net-"+mode, id, hx.App("CNet", u.coq(), hx.Bool(socks), san, obs),
-		map[string]any{"addr": u.addrStr(), "dial_addr": u.dialStr(), "cert_for": ns.cert, "created": created,
-			"destinations": rec.dests(), "sni": rec.sniObserved(), "http_host": rec.hostObserved(), "exchange_ok": exchOK, "exchange_err": exchErr, "connects": rec.n})
-	return true
+	starved := created && !exchOK && mode != "quic" && rec.n <= 3 &&
+		(strings.Contains(exchErr, "deadline exceeded") || strings.Contains(exchErr, "timeout"))
+	return netResult{kind: "net-" + mode, coq: hx.App("CNet", u.coq(), hx.Bool(socks), san, obs),
+		desc: map[string]any{"addr": u.addrStr(), "dial_addr": u.dialStr(), "cert_for": ns.cert, "created": created,
+			"destinations": rec.dests(), "sni": rec.sniObserved(), "http_host": rec.hostObserved(), "exchange_ok": exchOK,
+			"exchange_err": exchErr, "connects": rec.n}, starved: starved}, true
 }
 
 func name(h string) ep              { return ep{host: h} }
@@ -990,6 +1058,17 @@ func netCatalogue(p1, p2 string) []netSpec {
 		// https with a bare IPv6 host (net/http alone would take "2001:db8:" as the TLS name)
 		{u: mean("https", v6("2001:db8::1", false), "/dns-query", nil), cert: "2001:db8::1"},
 		{u: mean("https", v6("2001:db8::1", false), "/dns-query", nil), cert: "2001:db8::"},
+		// tcp based transports without the proxy, on loopback
+		{u: mean("tcp", namep("127.0.0.2", p1), "", nil), direct: true},
+		{u: mean("tcp", v6("::1", true), "", nil), direct: true},
+		{u: mean("tcp+pipeline", v6p("::1", p1), "", pe(namep("127.0.0.3", p2))), direct: true},
+		{u: mean("tcp", namep("127.0.0.1", p1), "", pe(v6("::1", false))), direct: true},
+		{u: mean("tls", namep("127.0.0.2", p1), "", nil), cert: "127.0.0.2", direct: true},
+		{u: mean("tls", name("127.0.0.3"), "", nil), cert: "127.0.0.3", direct: true},
+		{u: mean("tls+pipeline", namep("dns.example", p1), "", pe(v6p("::1", p2))), cert: "dns.example", direct: true},
+		{u: mean("https", v6p("::1", p1), "/dns-query", nil), cert: "::1", direct: true},
+		{u: mean("https", name("dns.example"), "/dns-query", pe(name("127.0.0.2"))), cert: "dns.example", direct: true},
+		{u: mean("https", v6("0:0:0:0:0:0:0:1", false), "/dns-query", nil), cert: "::1", direct: true},
 	}
 }
 
@@ -1047,6 +1126,10 @@ func genNet(r *hx.RNG) netSpec {
 	s := hx.Pick(r, schemes)
 	_, socks, _ := schemeMode(s)
 	var u uin
+	direct := socks && r.Chance(1, 3)
+	if direct {
+		socks = false
+	}
 	if socks {
 		u = mean(s, socksHosts(), hx.Pick(r, []string{"", "/dns-query"}), nil)
 		if !u.e.v6 || u.e.br {
@@ -1063,7 +1146,7 @@ func genNet(r *hx.RNG) netSpec {
 		}
 	} else {
 		u = mean(s, loopEp(p1), "", nil)
-		if s == "h3" {
+		if s == "h3" || s == "https" {
 			u.path = "/dns-query"
 		}
 		if r.Chance(2, 5) {
@@ -1074,7 +1157,7 @@ func genNet(r *hx.RNG) netSpec {
 			u.dial = &d
 		}
 	}
-	ns := netSpec{u: u}
+	ns := netSpec{u: u, direct: direct}
 	if s == "tls" || s == "tls+pipeline" || s == "https" {
 		ns.cert = u.e.host
 		if r.Chance(1, 5) && u.dial != nil {
